@@ -275,7 +275,7 @@ func genPriors(t *rapid.T, in *Input, topics []string, o GenOpts) {
 				i := rapid.IntRange(0, n-1).Draw(t, "stalemember")
 				if mode == 2 {
 					// a member that missed rebalances: everything it claims is from an older generation
-					in.Members[i].Gen = G - int32(rapid.IntRange(1, 3).Draw(t, "behind"))
+					in.Members[i].Gen = max(-1, G-int32(rapid.IntRange(1, 3).Draw(t, "behind")))
 				}
 				c := rapid.IntRange(1, min(6, len(universe))).Draw(t, "nclaims")
 				for x := 0; x < c; x++ {
